@@ -150,3 +150,31 @@ def judge(workdir, trace_file, prop, workers=4, timeout=1800, tag=""):
     if not tlc_ok(p.returncode, p.stdout):
         raise ToolError(f"TLC failed judging {trace_file} for {prop}:\n" + error_excerpt(p.stdout, 60))
     return parse_tagged(p.stdout, "VIOL"), parse_stats(p.stdout), dt
+
+
+def validate_against_model(workdir, name, cfgs, recs, workers=3, timeout=1800):
+    """Step 4: which of the recorded traces (dicts with id, ci (1-based index into cfgs), script, obs)
+    are behaviours of the model?  returns (set of accepted ids, stats, seconds)"""
+    os.makedirs(workdir, exist_ok=True)
+    for f in os.listdir(SPEC_DIR):
+        if f.endswith(".tla"):
+            shutil.copy(os.path.join(SPEC_DIR, f), os.path.join(workdir, f))
+    tf = os.path.join(workdir, name + "_recs.ndjson")
+    with open(tf, "w") as f:
+        for r in recs:
+            f.write(json.dumps({"id": r["id"], "ci": r["ci"], "script": r["script"], "obs": r["obs"]}) + "\n")
+    mod = [f"---- MODULE {name} ----", "EXTENDS TraceModel", "", "CFGSv == <<" + ",\n  ".join(tla(c) for c in cfgs) + ">>",
+           "===="]
+    with open(os.path.join(workdir, name + ".tla"), "w") as f:
+        f.write("\n".join(mod) + "\n")
+    c = ["SPECIFICATION TMSpec", "CONSTANTS", "  CFGS <- CFGSv", "  KeepObs = TRUE", "  NThr = 0",
+         "  defaultInitValue = defaultInitValue", "CHECK_DEADLOCK FALSE", "ACTION_CONSTRAINT Follow",
+         "INVARIANT Accept"]
+    with open(os.path.join(workdir, name + ".cfg"), "w") as f:
+        f.write("\n".join(c) + "\n")
+    rc, out, dt = run_tlc(workdir, name, workers=workers, timeout=timeout, xmx="6g",
+                          env_extra={"TRACES": os.path.abspath(tf)}, java_opts="-Xss1g")
+    if not tlc_ok(rc, out):
+        raise ToolError(f"TLC failed validating traces against the model ({name}):\n" + error_excerpt(out, 60))
+    acc = {a["id"] for a in parse_tagged(out, "ACC")}
+    return acc, parse_stats(out), dt
